@@ -307,3 +307,18 @@ theorem deformBy_bad_name (qa : Coord → Option String) (name axis : String) (l
   · rw [if_neg h, if_neg h1, if_neg h2]
 
 end Panqec.Lat2D
+
+namespace Panqec.Lat2D
+
+/-- `interCount_filter4` with each membership condition replaced by an equivalent proposition -/
+theorem interCount_filter4_iff (c1 c2 c3 c4 : Coord) (f : Coord → Bool) (B : List Coord)
+    (P1 P2 P3 P4 : Prop) [Decidable P1] [Decidable P2] [Decidable P3] [Decidable P4]
+    (h1 : (f c1 = true ∧ c1 ∈ B) ↔ P1) (h2 : (f c2 = true ∧ c2 ∈ B) ↔ P2)
+    (h3 : (f c3 = true ∧ c3 ∈ B) ↔ P3) (h4 : (f c4 = true ∧ c4 ∈ B) ↔ P4) :
+    interCount ([c1, c2, c3, c4].filter f) B =
+      (if P1 then 1 else 0) + (if P2 then 1 else 0) + (if P3 then 1 else 0) +
+      (if P4 then 1 else 0) := by
+  rw [interCount_filter4]
+  simp only [h1, h2, h3, h4]
+
+end Panqec.Lat2D
